@@ -2,6 +2,112 @@
 
 package c14
 
-import "testing"
+import (
+	"fmt"
+	"os"
+	"testing"
 
-func replayOther(t *testing.T) { t.Skip("no such unit") }
+	"pgregory.net/rapid"
+
+	"servitor/object"
+	"servitor/pub"
+	"servitor/zverif/vgen"
+	"servitor/zverif/vorc"
+	"servitor/zverif/vrep"
+	"servitor/zverif/vsim"
+	"servitor/zverif/vui"
+)
+
+var sim *vsim.Sim
+
+func TestMain(m *testing.M) {
+	vsim.Init()
+	sim = vsim.New(1)
+	os.Exit(m.Run())
+}
+
+func neutral(what, s string) error {
+	p, err := vorc.Parse(s)
+	if err != nil {
+		return fmt.Errorf("%s is not well-formed terminal text: %v", what, err)
+	}
+	if err := p.NeutralAtLineEnds(); err != nil {
+		return fmt.Errorf("%s: %v\n%q", what, err, clip(s))
+	}
+	return nil
+}
+
+// DocCase: a document in one of the four markups inside a post or a profile, rendered as markup,
+// full text and preview at several widths: no attribute may be active at any line end.
+type DocCase struct {
+	Doc    vgen.Doc `json:"doc"`
+	Actor  bool     `json:"actor,omitempty"`
+	Widths []int    `json:"widths"`
+}
+
+func checkDoc(c DocCase) vrep.Result {
+	classes := []string{"media:" + c.Doc.MediaType}
+	if c.Doc.Content == "" {
+		return vrep.Result{Classes: []string{"empty"}}
+	}
+	o := object.Object{"content": c.Doc.Content, "mediaType": c.Doc.MediaType}
+	m, _, err := o.GetMarkup("content", "mediaType")
+	if err != nil {
+		return vrep.Fail("harness: %v", err)
+	}
+	var item pub.Tangible
+	if c.Actor {
+		item, err = pub.NewActorFromObject(object.Object{"type": "Person", "name": "someone", "summary": c.Doc.Content, "mediaType": c.Doc.MediaType}, nil)
+	} else {
+		item, err = pub.NewPostFromObject(object.Object{"type": "Note", "name": "a title", "content": c.Doc.Content, "mediaType": c.Doc.MediaType,
+			"attachment": []any{map[string]any{"type": "Link", "href": "https://t.test/a", "name": "an attachment with a long descriptive name"}}}, nil)
+	}
+	if err != nil {
+		return vrep.Fail("harness: %v", err)
+	}
+	styled := false
+	for _, w := range c.Widths {
+		for what, s := range map[string]string{"Render": m.Render(w), "String": item.String(w), "Preview": item.Preview(w)} {
+			if err := neutral(fmt.Sprintf("%s %s(%d)", c.Doc.MediaType, what, w), s); err != nil {
+				return vrep.Result{Classes: classes, Err: err}
+			}
+		}
+		if w < c.Doc.LongWord {
+			styled = true
+		}
+	}
+	return vrep.Result{Classes: classes, Nontrivial: styled && len(c.Doc.Links) > 0}
+}
+
+func genDoc(t *rapid.T) DocCase {
+	next := 0
+	c := DocCase{Doc: vgen.GenDoc(t, &next), Actor: rapid.Bool().Draw(t, "actor")}
+	for n := rapid.IntRange(1, 3).Draw(t, "nw"); n > 0; n-- {
+		c.Widths = append(c.Widths, rapid.IntRange(1, 120).Draw(t, "w"))
+	}
+	return c
+}
+
+func TestDocs(t *testing.T) { vrep.Run(t, "Docs", false, genDoc, checkDoc) }
+
+// Frames: every frame the UI emits while key histories are played is attribute-neutral at every line end.
+func checkFrames(c vui.HistCase) vrep.Result {
+	frames := 0
+	r := vui.RunHistory(sim, c, vui.Options{OnFrame: func(frame string, w, h int) error {
+		frames++
+		return neutral(fmt.Sprintf("frame (%dx%d)", w, h), frame)
+	}})
+	r.Nontrivial = frames > 3
+	return r
+}
+
+func TestFrames(t *testing.T) { vrep.Run(t, "Frames", true, vui.GenHistCase, checkFrames) }
+
+func replayOther(t *testing.T) {
+	switch vrep.ReplayCheckName() {
+	case "Docs":
+		vrep.Replay(t, "Docs", checkDoc)
+	default:
+		vrep.Replay(t, "Frames", checkFrames)
+	}
+}
